@@ -201,11 +201,17 @@ pub fn cram_fixture_models() -> Vec<(&'static str, Vec<u8>)> {
     let unmapped = "r\t4\t*\t0\t0\t*\t*\t0\t0\tACGT\tIIII";
     let unmapped2 = "q\t4\t*\t0\t0\t*\t*\t0\t0\tAC\tII";
     let mapped = "r0\t0\ts\t1\t60\t4M\t*\t0\t0\tACGT\tIIII";
+    let pair1 = "p\t99\ts\t1\t60\t4M\t=\t5\t8\tACGT\tIIII";
+    let pair2 = "p\t147\ts\t5\t60\t4M\t=\t1\t-8\tACGT\tIIII";
+    let mapped6 = "r6\t0\ts\t6\t60\t4M\t*\t0\t0\tCGTA\tIIII";
     vec![
         ("min-1unmapped", text(SAM_HEADER, &[unmapped], true)),
         ("min-2unmapped", text(SAM_HEADER, &[unmapped, unmapped2], true)),
         ("min-1mapped", text(SAM_HEADER, &[mapped], true)),
         ("min-mapped-then-unmapped", text(SAM_HEADER, &[mapped, unmapped2], true)),
+        // a proper pair in one slice: the first record has its mate downstream (CF bit, NF series)
+        ("min-pair", text(SAM_HEADER, &[pair1, pair2], true)),
+        ("min-pair-then-single", text(SAM_HEADER, &[pair1, pair2, mapped6], true)),
     ]
 }
 
@@ -214,7 +220,9 @@ pub fn cram_fresh(model: &[u8]) -> Option<Vec<u8>> {
     written(Kind::Cram, String::new(), model.to_vec(), true).map(|i| i.bytes)
 }
 
-static CRAM_FIXTURES: [(&str, &[u8]); 4] = [
+static CRAM_FIXTURES: [(&str, &[u8]); 6] = [
+    ("min-pair", include_bytes!("../data/min-pair.cram")),
+    ("min-pair-then-single", include_bytes!("../data/min-pair-then-single.cram")),
     ("min-1unmapped", include_bytes!("../data/min-1unmapped.cram")),
     ("min-2unmapped", include_bytes!("../data/min-2unmapped.cram")),
     ("min-1mapped", include_bytes!("../data/min-1mapped.cram")),
@@ -236,6 +244,41 @@ pub fn items() -> Vec<Item> {
                 v.push(i);
             }
         }
+    }
+    // a record whose real CIGAR lives in the CG tag (kSmN placeholder in the CIGAR field), written by hand: the
+    // noodles writer only produces it for more than 65535 operations
+    {
+        let mut b = b"BAM\x01".to_vec();
+        le32(&mut b, SAM_HEADER.len() as u32);
+        b.extend_from_slice(SAM_HEADER.as_bytes());
+        le32(&mut b, 1);
+        le32(&mut b, 2);
+        b.extend_from_slice(b"s\0");
+        le32(&mut b, 10);
+        let mut r = Vec::new();
+        le32(&mut r, 0); // refID
+        le32(&mut r, 0); // pos
+        r.push(2); // l_read_name
+        r.push(60); // mapq
+        r.extend_from_slice(&4681u16.to_le_bytes()); // bin
+        r.extend_from_slice(&2u16.to_le_bytes()); // n_cigar_op
+        r.extend_from_slice(&0u16.to_le_bytes()); // flag
+        le32(&mut r, 4); // l_seq
+        le32(&mut r, u32::MAX); // next refID
+        le32(&mut r, u32::MAX); // next pos
+        le32(&mut r, 0); // tlen
+        r.extend_from_slice(b"r\0");
+        le32(&mut r, (4 << 4) | 4); // 4S
+        le32(&mut r, (4 << 4) | 3); // 4N
+        r.extend_from_slice(&[0x12, 0x48]); // ACGT
+        r.extend_from_slice(&[40; 4]);
+        r.extend_from_slice(b"CGBI");
+        le32(&mut r, 1);
+        le32(&mut r, 4 << 4); // 4M
+        le32(&mut b, r.len() as u32);
+        b.extend_from_slice(&r);
+        v.push(plain(Kind::Bam, "bam/min-cigar-in-cg-tag".into(), vcore::bgzf::reseal(&b, 65280), Side::default()));
+        v.push(plain(Kind::BamRaw, "bamraw/min-cigar-in-cg-tag".into(), b, Side::default()));
     }
     // headerless SAM: one minimal line and nothing else
     v.push(plain(Kind::Sam, "sam/min-headerless-1rec".into(), b"r\t4\t*\t0\t0\t*\t*\t0\t0\t*\t*\n".to_vec(), Side::default()));
